@@ -16,6 +16,8 @@ from . import common, scenarios, catalog, solverfam as sf
 from .common import Check
 
 import gen_forms  # noqa
+import pdf_reader  # noqa
+import pdf_text  # noqa
 
 STATUS = {'S': 0, 'MFJ': 1, 'MFS': 2, 'HoH': 3, 'QSS': 4}
 
@@ -108,6 +110,63 @@ def replay_real(H, year, p):
         return ('exc', '%s: %s' % (type(e).__name__, e))
 
 
+_TEXT = {}
+
+
+def template_text(path, source):
+    """printed page text (content streams) or the accessibility text of the widgets, whitespace-normalised"""
+    if (path, source) not in _TEXT:
+        if source == 'page':
+            t = ' '.join(r[3] for r in pdf_text.page_lines(path))
+        else:
+            tm = pdf_reader.read_template(path)
+            t = ' '.join(w['speak'] for w in tm['fields'].values())
+        _TEXT[(path, source)] = re.sub(r'\$\s+', '$', re.sub(r'\s+', ' ', t))
+    return _TEXT[(path, source)]
+
+
+def printed_check(ck, year, items):
+    """the amounts PRINTED in the bundled templates of the year against the oracle's published amounts"""
+    from decimal import Decimal
+    base = os.path.join(common.REPO, 'habutax', 'forms', 'ty%d' % year)
+    n_ok, absent = 0, []
+    for it in items:
+        vals = it['values'].get(str(year))
+        if vals is None or not it.get('printed'):
+            continue
+        if not isinstance(vals, dict):
+            vals = {sk: vals for sk in STATUS}
+        for sp in it['printed']:
+            path = os.path.join(base, sp['file'])
+            if not os.path.exists(path):
+                absent.append('%s:%s (no %s)' % (year, it['item'], sp['file']))
+                continue
+            try:
+                text = template_text(path, sp['source'])
+            except Exception as e:  # noqa
+                ck.oblige('printed:%d:%s' % (year, it['item']), False, 'template %s unreadable: %s' % (sp['file'], e))
+                continue
+            ms = list(re.finditer(sp['regex'], text))
+            if not ms:
+                absent.append('%s:%s:%s' % (year, it['item'], '/'.join(sp['statuses'])))
+                continue
+            for sk, grp in sp['statuses'].items():
+                if sk not in vals:
+                    continue
+                printed = set(Decimal(m.group(grp).replace(',', '')) * sp.get('mult', 1) for m in ms)
+                good = printed == {Decimal(str(vals[sk]))}
+                ck.count((year, 'printed', it['item'], sk), nontrivial=True)
+                ck.oblige('printed:%d:%s:%s %s prints %s' % (year, it['item'], sk, sp['file'], sorted(str(x) for x in printed)), good)
+                n_ok += good
+                if not good:
+                    ck.violation('C08:%d:%s:%s:printed' % (year, it['item'], sk),
+                                 'ty%d %s for %s: the bundled template %s prints %s where the published table has %s' % (
+                                     year, it['item'], sk, sp['file'], sorted(str(x) for x in printed), vals[sk]),
+                                 {'kind': 'proof-or-correspondence', 'theorem_or_correspondence': 'C08 printed amount %d %s %s (%s)' % (year, it['item'], sk, sp['file']),
+                                  'printed': sorted(str(x) for x in printed), 'published': vals[sk], 'cite': it['cite'], 'pattern': sp['regex']}, found=False)
+    ck.cov.setdefault('printed_in_bundled_templates', {})[str(year)] = {'agree': n_ok, 'pattern_not_found_in_this_years_template': absent}
+
+
 def run(tier, seed):
     ck = Check('C08', tier, seed)
     ck.rule = ('triple = (tax year, filing status, statutory item) from oracles/statutory.json (exhaustive over the table); each is a probe '
@@ -160,6 +219,7 @@ def run(tier, seed):
                               'inputs_store': {k: str(getattr(v, 'name', v)) for k, v in p['inps'].items()},
                               'expected': str(p['expect']), 'observed_on_real_line': str(real)}, found=True)
         ck.sample({'year': y, 'probe': {k: str(v) for k, v in probes[0].items()}})
+        printed_check(ck, y, items)
     ck.cov['exhaustive'] = True
     # tie: translator validation on a few real returns
     rng = random.Random(seed + 8)
